@@ -79,7 +79,7 @@ Definition srec_step (c : cfg) (rest : list (list Z)) (v : sv) (r : list Z) : sv
       let now := now_of (v_w v) in
       let winners := match take_list wl with Some (l, _) => l | None => [] end in
       let ss := restart_slots c (v_disk v) winners now (preloads rest) 1 (c_types c) in
-      mkSv (mkW ss true 0 [] [] (w_out (v_w v))) (v_disk v) (v_disk v) [] [] (v_gone v) (v_exited v) (v_apierr v) None (v_ok v) (v_why v)
+      mkSv (mkW ss true 0 [] [] (w_out (v_w v))) (v_disk v) (v_disk v) [] [] (v_gone v) (filter (fun e => e <? 1000000) (v_exited v)) (v_apierr v) None (v_ok v) (v_why v)
   | k :: rid :: pod :: cid :: _ =>
       if (31 <=? k) && (k <=? 33) then
         match enter (v_pend v) pod with
@@ -112,7 +112,8 @@ Definition srec_step (c : cfg) (rest : list (list Z)) (v : sv) (r : list Z) : sv
                     (* a DEL whose release fails at the interface reports the error and keeps the record *)
                     let failing := memz (- (p_pod x)) (v_exited v) && negb (memz (p_pod x) (v_gone v)) &&
                                    match sget (p_pod x) (v_mem v) with Some rc => k_cid rc =? p_cid x | None => false end in
-                    sreq v1 (code =? (if failing then 2 else 0)) 414
+                    let stfail := memz (1000000 + p_pod x) (v_exited v) in
+                    sreq (with_api v1 (v_gone v1) (remz (1000000 + p_pod x) (v_exited v1)) (v_apierr v1)) (code =? (if failing || stfail then 2 else 0)) 414
                   else if memz (p_pod x) (v_gone v) then sreq v1 (code =? 2) 417     (* GetPod fails for a pod the API no longer has *)
                   else
                     let '(e, b4, b6) := get_reply (v_mem v) (p_pod x) (p_cid x) in
@@ -135,7 +136,11 @@ Definition srec_step (c : cfg) (rest : list (list Z)) (v : sv) (r : list Z) : sv
               sreq v (match v_gc v with Some _ => true | None =>
                         existsb (fun x => (p_pod x =? p) && (p_kind x =? 2) && negb (p_rej x) &&
                                           match sget p (v_mem v) with Some rc => k_cid rc =? p_cid x | None => true end) (v_rpcs v) end) 423
-            else with_store v (sdel p (v_disk v)) (sdel p (v_mem v))
+            else if op =? 4 then with_store v (sdel p (v_disk v)) (sdel p (v_mem v))
+            else if op =? 5 then v      (* the write of the record failed before any effect: the ADD reports the error *)
+            else
+              (* the removal of the record failed before any effect: the DEL reports the error (kept as 1000000 + p until its reply) *)
+              with_api v (v_gone v) ((1000000 + p) :: v_exited v) (v_apierr v)
         | _ => sfail v 424 end
       else pool_rec c rest v r
   | [2; rid] =>
@@ -161,11 +166,12 @@ Definition srec_step (c : cfg) (rest : list (list Z)) (v : sv) (r : list Z) : sv
              while the pass is running (SGCRace) was answered for before it came back *)
           let live p := negb (memz p gone0) && negb (memz p exited0) in
           let api p := if apierr0 then None else Some (negb (memz p gone0)) in
-          let failing p := memz (- p) exited0 && match sget p s0 with Some _ => true | None => false end in
+          (* a cleanup fails when the release fails at the interface, or when the removal of the record failed in this pass (1000000 + p) *)
+          let failing p := (memz (- p) exited0 || memz (1000000 + p) (v_exited v)) && match sget p s0 with Some _ => true | None => false end in
           (* every record whose pod vanished and whose cleanup works is collected, whatever happens to the others *)
           let '(removed, _) := gc_pass live api (fun _ => true) (filter (fun p => negb (failing p)) (map fst s0)) in
           let anyfail := existsb (fun p => failing p && negb (live p) && match api p with Some false => true | _ => false end) (map fst s0) in
-          sreq (with_gc v None) ((code =? (if anyfail then 1 else 0)) && list_eqb (proj_store (v_mem v)) (proj_store (gc_store s0 removed))) 431
+          sreq (with_api (with_gc v None) (v_gone v) (filter (fun e => e <? 1000000) (v_exited v)) (v_apierr v)) ((code =? (if anyfail then 1 else 0)) && list_eqb (proj_store (v_mem v)) (proj_store (gc_store s0 removed))) 431
       end
   | [40; p; b] => with_api v (v_gone v) (if dec_bool b then (- p) :: v_exited v else remz (- p) (v_exited v)) (v_apierr v)   (* releasing p fails: kept as -p *)
   | [35; p] => with_api v (p :: v_gone v) (v_exited v) (v_apierr v)
@@ -173,6 +179,7 @@ Definition srec_step (c : cfg) (rest : list (list Z)) (v : sv) (r : list Z) : sv
   | [37; b] => with_api v (v_gone v) (v_exited v) (dec_bool b)
   | [38] => v
   | [39; _] => v
+  | [46] => v
   | [44; p] => with_api v (remz p (v_gone v)) (remz p (v_exited v)) (v_apierr v)   (* a new instance of the name: the API has the pod again, its uid differs *)
   | 99 :: _ =>
       let v1 := pool_rec c rest v r in
@@ -261,10 +268,14 @@ Definition so_step (prop : Z) (ns : nat) (snaps : list (list ssnap)) (o : so) (r
             else if rid =? 4 then
               let o1 := if (prop =? 9) && o_ingc o
                         then so_req (so_req o (negb (o_apie o) && existsb (fun g => (fst g =? pod) && negb (snd g <? -2500000)) (o_gonep o)) 901)   (* only a vanished pod, and only on the API's word *)
-                                    (negb (existsb (fun g => (fst g =? pod) && (snd g <? -2500000)) (o_gonep o))) 903   (* never the record of a request served while the pass runs *)
+                                    (negb (existsb (fun g => (fst g =? pod) && (snd g <? -2500000)) (o_gonep o))) 904   (* never the record of a request served while the pass runs *)
                         else o in
               (* a record collected by the GC pass ends the pod's hold *)
               so_upd o1 (sdel pod (o_store o1)) (if o_ingc o1 then sdel pod (o_ack o1) else o_ack o1) (o_rpcs o1) (o_gonep o1) (o_apie o1) (o_ingc o1) (o_failed o1) (o_restarted o1)
+            else if rid =? 6 then
+              (* the removal of the record failed AFTER the allocation was released (DEL and GC release first): the pod's hold
+                 has ended although the request reports an error and the record stays until the retry *)
+              so_upd o (o_store o) (sdel pod (o_ack o)) (o_rpcs o) (o_gonep o) (o_apie o) (o_ingc o) (o_failed o) (o_restarted o)
             else o
         | _ => o end
       else if k =? 41 then
